@@ -663,17 +663,17 @@ def rule_contains(chk, prog):
 
 def run(chk):
     prog = chk.load()
-    rule_callers(chk, prog)
-    rule_vis_guard(chk, prog)
-    rule_blocking_scan(chk, prog)
-    rule_first_blocker(chk, prog)
-    rule_fallback(chk, prog)
-    rule_endpoints(chk, prog)
-    rule_contains(chk, prog)
-    rule_sweep_border(chk, prog)
-    rule_free_side_lines(chk, prog)
+    chk.guard(rule_callers, chk, prog)
+    chk.guard(rule_vis_guard, chk, prog)
+    chk.guard(rule_blocking_scan, chk, prog)
+    chk.guard(rule_first_blocker, chk, prog)
+    chk.guard(rule_fallback, chk, prog)
+    chk.guard(rule_endpoints, chk, prog)
+    chk.guard(rule_contains, chk, prog)
+    chk.guard(rule_sweep_border, chk, prog)
+    chk.guard(rule_free_side_lines, chk, prog)
     from .c10 import rule_limits_narrow
-    rule_limits_narrow(chk, prog)
+    chk.guard(rule_limits_narrow, chk, prog)
     from ..rules import mirrors
     r = chk.rule("MIRROR", "scan-line helpers that bound the space a nudged segment may move in (firstObstacleAbove/Below, "
                  "markShiftSegmentsAbove/Below, NudgingShiftSegment::lowC/highC) stay exact mirror images of each other "
